@@ -59,20 +59,43 @@ fn shape_bytes(mut i: u64) -> Vec<u8> {
 /// block boundary (64 KiB, 1 MiB, 2 MiB) and the input ends in a complete character, a truncated
 /// UTF-8 sequence, a lone UTF-16 lead surrogate or an odd trailing byte.
 pub const Z_TOTALS: [usize; 9] = [65_535, 65_536, 65_537, 1_048_575, 1_048_576, 1_048_577, 2_097_151, 2_097_152, 2_097_153];
+/// A short list of very large inputs (16 MiB and 32 MiB +-1): UTF-8 and UTF-16LE, every tail, Strict and Call.
+pub const HUGE_TOTALS: [usize; 4] = [16_777_215, 16_777_216, 16_777_217, 33_554_432];
+/// The 16 / 32 MiB inputs cost about a second each: thorough tier only.
+pub static HUGE_ON: std::sync::atomic::AtomicBool = std::sync::atomic::AtomicBool::new(false);
+pub fn huge_count() -> u64 {
+    if HUGE_ON.load(std::sync::atomic::Ordering::Relaxed) {
+        (HUGE_TOTALS.len() * Z_TAILS.len() * 2 * 2) as u64
+    } else {
+        0
+    }
+}
 pub const Z_TAILS: [&str; 5] = ["complete", "utf8-lead-only", "utf8-2-of-3", "utf16-lone-lead-surrogate", "odd-trailing-byte"];
 pub fn ztail_count() -> u64 {
-    (Z_TOTALS.len() * Z_TAILS.len() * 3 * 2 * 4) as u64
+    (Z_TOTALS.len() * Z_TAILS.len() * 3 * 2 * 4) as u64 + huge_count()
 }
 
 fn ztail_case(k: u64) -> Case {
-    let trap = TRAPS[(k % 4) as usize];
-    let k = k / 4;
-    let bom = k % 2 == 1;
-    let k = k / 2;
-    let enc = ENCS[(k % 3) as usize];
-    let k = k / 3;
-    let tail = Z_TAILS[(k % Z_TAILS.len() as u64) as usize];
-    let total = Z_TOTALS[((k / Z_TAILS.len() as u64) % Z_TOTALS.len() as u64) as usize];
+    let (trap, bom, enc, tail, total) = if k < huge_count() {
+        let trap = ["strict", "call"][(k % 2) as usize];
+        let k = k / 2;
+        let enc = ["utf-8", "utf-16le"][(k % 2) as usize];
+        let k = k / 2;
+        let tail = Z_TAILS[(k % Z_TAILS.len() as u64) as usize];
+        let total = HUGE_TOTALS[((k / Z_TAILS.len() as u64) % HUGE_TOTALS.len() as u64) as usize];
+        (trap, false, enc, tail, total)
+    } else {
+        let k = k - huge_count();
+        let trap = TRAPS[(k % 4) as usize];
+        let k = k / 4;
+        let bom = k % 2 == 1;
+        let k = k / 2;
+        let enc = ENCS[(k % 3) as usize];
+        let k = k / 3;
+        let tail = Z_TAILS[(k % Z_TAILS.len() as u64) as usize];
+        let total = Z_TOTALS[((k / Z_TAILS.len() as u64) % Z_TOTALS.len() as u64) as usize];
+        (trap, bom, enc, tail, total)
+    };
     // the tail bytes, in the stream's encoding
     let tail_bytes: Vec<u8> = match (tail, enc) {
         ("complete", _) => vec![],
